@@ -245,6 +245,36 @@ Proof.
   apply traversal_agrees; auto. apply trav_depth_size.
 Qed.
 
+(* the same three statements about the Go entry point hcl.AbsTraversalForExpr *)
+Theorem traversal_agrees_abs :
+  forall e root steps,
+  abs_traversal_for_expr e = Some (root, steps) ->
+  trav_shape_of e = Some ShPlain ->
+  forall (c : ctx) (anon : option val) (fuel : nat),
+  (trav_depth e < fuel)%nat ->
+  fst (eval fuel c anon e) = fst (traverse_abs c root steps) /\
+  has_errors (snd (eval fuel c anon e)) = has_errors (snd (traverse_abs c root steps)).
+Proof.
+  intros e root steps H. rewrite abs_traversal_for_expr_eq in H.
+  exact (traversal_agrees e root steps H).
+Qed.
+
+Theorem traversal_agrees_value_abs :
+  forall e root steps,
+  abs_traversal_for_expr e = Some (root, steps) ->
+  trav_shape_of e = Some ShPlain ->
+  forall c : ctx,
+  fst (value c e) = fst (traverse_abs c root steps) /\
+  has_errors (snd (value c e)) = has_errors (snd (traverse_abs c root steps)).
+Proof.
+  intros e root steps H. rewrite abs_traversal_for_expr_eq in H.
+  exact (traversal_agrees_value e root steps H).
+Qed.
+
+Theorem traversal_shapes_abs :
+  forall e t, abs_traversal_for_expr e = Some t -> exists sh, trav_shape_of e = Some sh.
+Proof. intros e t H. rewrite abs_traversal_for_expr_eq in H. exact (as_traversal_shape e t H). Qed.
+
 (* The documented keyword deviation (LiteralValueExpr.AsTraversal): the literals true,
    false and null have the static traversals `true`, `false`, `null`, which name VARIABLES;
    evaluation ignores the scope. *)
